@@ -27,7 +27,7 @@ let handle = function
        let ra = Array.of_list rl in
        let req (i : BinNums.coq_N) : BinNums.coq_N =
          if consumer = "0" || Array.length ra = 0 then n_of_int 65536
-         else n_of_int (Stdlib.max 1 (Stdlib.min 65536 ra.((int_of_n i) mod Array.length ra))) in
+         else n_of_int (Stdlib.max (1 + Stdlib.List.length bb / 2000) (Stdlib.min 65536 ra.((int_of_n i) mod Array.length ra))) in
        let mach = (match Framing.dec_header bb with
          | Res.Ok (h, r) ->
            (match BodyReader.br_run req h r with
